@@ -11,6 +11,7 @@
   stmt ::= (let NAME e) | (do e) | (return e)
   e    ::= (lit V) | (var NAME) | (un OP e) | (bin OP e e) | (member M e e*) | (item e N) | (setitem e N e)
          | (call tab) | (call tab e e) | (call tup e*) | (fcall NAME e*)
+         | (call BUILTIN e*)     BUILTIN in the placement table `biPlace` (built-ins of two and more arguments)
   Every `run` executes `execXs` of Model/StoreX.lean — the function the C05 theorems are about — on the one
   persistent state. Answer: `model=<step>|<step>|…`, one step per `run`:
      `<outcome>#<NAME>=<V>/<l|t>;…`   outcome = ok | rerr+<code> | hazard+<h> | unmodelled | oof
@@ -74,6 +75,9 @@ def toX : Nat → S → TrM XExpr
   | fuel + 1, .list [.atom "call", .atom "tab"] => pure .tab0
   | fuel + 1, .list [.atom "call", .atom "tab", n, e] => do let a ← toX fuel n; let b ← toX fuel e; pure (.tab a b)
   | fuel + 1, .list (.atom "call" :: .atom "tup" :: args) => do let xs ← args.mapM (toX fuel); pure (.tup xs)
+  | fuel + 1, .list (.atom "call" :: .atom n :: args) => do
+    -- a built-in of two and more arguments: placement table `biPlace` of Model/StoreX.lean
+    if (biPlace n []).isSome then let xs ← args.mapM (toX fuel); pure (.bi n xs) else failure
   | fuel + 1, .list (.atom "fcall" :: .atom n :: args) => do
     let (t, _) ← get
     match t.funcs.findIdx? (fun f => f.1 == n && f.2 == args.length) with
